@@ -187,7 +187,7 @@ fn resolve_once(
                 query.report,
                 query.span,
                 defs,
-                true)?;
+                inner_ctx.can_guess())?;
 
             let new_value = expr::Value::make_integer(cur_address);
             
